@@ -31,6 +31,7 @@ type Evaluator struct {
 	endRules       []*Rule
 	endFileRules   []*Rule
 	fuzzing        bool
+	nesting        int
 }
 
 var (
@@ -43,6 +44,11 @@ var (
 
 var fuzzingLoopLimit = 10000
 var callDepthLimit = 4096
+
+// expressions and statements in evaluation at once, over all calls in progress: each of them
+// holds a piece of the Go stack, so deeply nested code inside a deep recursion is refused
+// before Go's stack limit ends the process
+const nestingLimit = 150000
 
 func NewEvaluator(prog Program, lexer *Lexer, stdout io.Writer) Evaluator {
 	e := Evaluator{
@@ -211,6 +217,16 @@ func (e *Evaluator) evalString(str string) (*Cell, error) {
 }
 
 func (e *Evaluator) evalExpr(expr Expr) (*Cell, error) {
+	if e.nesting >= nestingLimit {
+		return nil, e.error(expr.Token(), "nesting limit exceeded")
+	}
+	e.nesting++
+	cell, err := e.evalNestedExpr(expr)
+	e.nesting--
+	return cell, err
+}
+
+func (e *Evaluator) evalNestedExpr(expr Expr) (*Cell, error) {
 	if err := e.verifStep(); err != nil {
 		return nil, err
 	}
@@ -870,6 +886,16 @@ func (e *Evaluator) evalExprList(exprs []Expr, copy bool) ([]*Cell, error) {
 }
 
 func (e *Evaluator) evalStatement(stmt Statement) error {
+	if block, ok := stmt.(*StatementBlock); ok && e.nesting >= nestingLimit {
+		return e.error(block.token, "nesting limit exceeded")
+	}
+	e.nesting++
+	err := e.evalNestedStatement(stmt)
+	e.nesting--
+	return err
+}
+
+func (e *Evaluator) evalNestedStatement(stmt Statement) error {
 	if err := e.verifStep(); err != nil {
 		return err
 	}
